@@ -54,6 +54,8 @@ def gen_hierarchy(rng, nmax=5, names=3):
         ugs = {str(x): rng.choice(["COUNTRY", "COUNTRY", "EQUIV-UNITS"])
                for x in sorted(set(rng.choice(range(1, names + 1)) for _ in range(rng.choice([0, 0, 1, 1, 2]))))}
         layers.append(dict(id=i, type=t, parents=parents, locals=locs, jobs=jobs, unit_groups=ugs))
+    if rng.random() < 0.25:
+        layers[0]["odd_names"] = True
     return layers
 
 
@@ -115,8 +117,23 @@ def emit(layers):
                 (f"<PARENT-REFS>{prefs}</PARENT-REFS>" if prefs else ""))
         by_type[L["type"]] += f'<{TYPES[L["type"]]} ID="{nm}">{body}</{TYPES[L["type"]]}>'
     secs = "".join(f"<{PLURAL[t]}>{by_type[t]}</{PLURAL[t]}>" for t in (0, 1, 2, 3, 4) if by_type[t])
+    if layers and layers[0].get("odd_names"):
+        for x, odd in ODD_NAMES.items():
+            secs = secs.replace(f"<SHORT-NAME>n{x}</SHORT-NAME>", f"<SHORT-NAME>{odd}</SHORT-NAME>").replace(
+                f'SHORT-NAME="n{x}"', f'SHORT-NAME="{odd}"')
     return ('<?xml version="1.0" encoding="UTF-8"?><ODX MODEL-VERSION="2.2.0" xmlns:xsi="http://www.w3.org/2001/XMLSchema-instance">'
             f'<DIAG-LAYER-CONTAINER ID="DLC"><SHORT-NAME>DLC</SHORT-NAME>{secs}</DIAG-LAYER-CONTAINER></ODX>')
+
+
+# short names which the library's named lists have to rename (python keyword, leading digit, name of a list method): they
+# are legal ODX short names, and NOT-INHERITED lists refer to objects by their ODX short name
+ODD_NAMES = {1: "continue", 2: "2ndGear", 3: "index"}
+ODD_INV = {v: k for k, v in ODD_NAMES.items()}
+
+
+def num_of(short_name):
+    """the number behind a generated object name (n1 / continue -> 1, ...)"""
+    return ODD_INV[short_name] if short_name in ODD_INV else int(short_name[1:])
 
 
 def src_of(o):
@@ -147,20 +164,20 @@ def views_of_db(db):
     out["services"], out["jobs"], out["unit_groups"] = {}, {}, {}
     for dl in db.diag_layers:
         i = int(dl.short_name[1:])
-        out["services"][i] = sorted([int(o.short_name[1:]), src_of(o)] for o in dl.services)
-        out["jobs"][i] = sorted([int(o.short_name[1:]), src_of(o)] for o in getattr(dl, "single_ecu_jobs", []))
+        out["services"][i] = sorted([num_of(o.short_name), src_of(o)] for o in dl.services)
+        out["jobs"][i] = sorted([num_of(o.short_name), src_of(o)] for o in getattr(dl, "single_ecu_jobs", []))
         us = dl.diag_data_dictionary_spec.unit_spec if dl.diag_data_dictionary_spec is not None else None
-        out["unit_groups"][i] = sorted([o.short_name[1:], o.category.value] for o in (us.unit_groups if us is not None else []))
-        out["diag_comms"][i] = [[int(o.short_name[1:]), src_of(o)] for o in dl.diag_comms]
+        out["unit_groups"][i] = sorted([str(num_of(o.short_name)), o.category.value] for o in (us.unit_groups if us is not None else []))
+        out["diag_comms"][i] = [[num_of(o.short_name), src_of(o)] for o in dl.diag_comms]
         ddds = dl.diag_data_dictionary_spec
-        out["dops"][i] = [[int(o.short_name[1:]), src_of(o)] for o in ddds.data_object_props if o.short_name.startswith("n")]
-        out["structures"][i] = [[int(o.short_name[1:]), src_of(o)] for o in ddds.structures]
-        out["muxs"][i] = [[int(o.short_name[1:]), src_of(o)] for o in ddds.muxs]
-        out["tables"][i] = [[int(o.short_name[1:]), src_of(o)] for o in ddds.tables]
-        out["gnrs"][i] = [[int(o.short_name[1:]), src_of(o)] for o in dl.global_negative_responses]
-        out["funct_classes"][i] = [[int(o.short_name[1:]), src_of(o)] for o in
+        out["dops"][i] = [[num_of(o.short_name), src_of(o)] for o in ddds.data_object_props if not o.short_name.startswith("k")]
+        out["structures"][i] = [[num_of(o.short_name), src_of(o)] for o in ddds.structures]
+        out["muxs"][i] = [[num_of(o.short_name), src_of(o)] for o in ddds.muxs]
+        out["tables"][i] = [[num_of(o.short_name), src_of(o)] for o in ddds.tables]
+        out["gnrs"][i] = [[num_of(o.short_name), src_of(o)] for o in dl.global_negative_responses]
+        out["funct_classes"][i] = [[num_of(o.short_name), src_of(o)] for o in
                                    getattr(dl, "functional_classes", dl.diag_layer_raw.functional_classes)]
-        out["audiences"][i] = [[int(o.short_name[1:]), src_of(o)] for o in
+        out["audiences"][i] = [[num_of(o.short_name), src_of(o)] for o in
                                getattr(dl, "additional_audiences", dl.diag_layer_raw.additional_audiences)]
     return out
 
